@@ -81,6 +81,8 @@ class LoopInfo:
         self.stay = None
         self.exit_block = None
         self.body_entry = None
+        self.bottom = False
+        self.test_block = None
         self.solving = False
         self.solving_T = False
 
@@ -144,15 +146,31 @@ class Aff:
             self.inner[b.name] = best
         for l in ls:
             t = l.header.term
-            if t.op != 'br' or not t.ops:
+            labs = [fn.bmap[x] for x in t.x['labels']] if t.op == 'br' else []
+            if t.op == 'br' and t.ops and len(labs) == 2 and (labs[0] in l.blocks) != (labs[1] in l.blocks) and \
+                    (labs[0] if labs[0] in l.blocks else labs[1]) is not l.header:
+                a, b = labs
+                l.body_entry, l.exit_block = (a, b) if a in l.blocks else (b, a)
+                l.stay_true = a in l.blocks
+                l.bottom = False
+                l.test_block = l.header
+                continue
+            # tested at the bottom: one latch whose conditional branch goes back to the header or out of the loop
+            if len(l.latches) != 1:
                 raise Unsupported('loop %s of %s does not exit from its header' % (l.header.name, fn.name))
-            a, b = [fn.bmap[x] for x in t.x['labels']]
-            if (a in l.blocks) == (b in l.blocks):
+            lt = l.latches[0]
+            tt = lt.term
+            labs = [fn.bmap[x] for x in tt.x['labels']] if tt.op == 'br' else []
+            if tt.op != 'br' or not tt.ops or len(labs) != 2 or l.header not in labs or all(x in l.blocks for x in labs):
                 raise Unsupported('loop %s of %s does not exit from its header' % (l.header.name, fn.name))
-            l.body_entry, l.exit_block = (a, b) if a in l.blocks else (b, a)
-            l.stay_true = a in l.blocks
+            l.body_entry = l.header
+            l.exit_block = labs[1] if labs[0] is l.header else labs[0]
+            l.stay_true = labs[0] is l.header
+            l.bottom = True
+            l.test_block = lt
         self.loadtag = {}
         self.tree = None
+        self.forced = {}     # block name -> name of the only successor that can be taken (decided branches, see emit_pruned)
 
     # ------------------------------------------------------------------ facts / proving
     def chain(self, loop):
@@ -201,7 +219,7 @@ class Aff:
         """expressions known to be >= 0 inside the body of `loop` (and its ancestors)"""
         exprs = list(self.base_facts)
         for l in self.chain(loop):
-            if l.stay is not None and not l.solving_T:
+            if l.stay is not None and not l.solving_T and not l.bottom:
                 exprs.extend(self.cmp_ge(l.stay))
                 if l.stay.pred == 'ne' and l.T is not None:
                     pass
@@ -278,6 +296,35 @@ class Aff:
                 cons.append({ms: -1, 1: 0})
         return fm.entails(cons + extra, goal)
 
+    def prove_ge0_sel(self, e, ge_facts):
+        """e >= 0 where e may contain sel(...) terms: proved with each such term replaced by either of its arms"""
+        e = sp.expand(self.early_sub(sp.sympify(e)))
+        sels = sorted((t for t in e.atoms(sp.Function) if t.func == sel), key=str)
+        if not sels or len(sels) > 3:
+            return self.prove_ge0(e, ge_facts)
+        t = sels[0]
+        return all(self.prove_ge0_sel(e.subs(t, arm), ge_facts) for arm in (t.args[3], t.args[4]))
+
+    def decide(self, c, ge_facts=()):
+        """truth of an integer comparison under the facts: True / False / None"""
+        if c.fp:
+            return None
+        facts = list(self.base_facts) + list(ge_facts)
+
+        def holds(c_):
+            p, a, b = c_.pred, sp.sympify(c_.a), sp.sympify(c_.b)
+            if p == 'ne':
+                return self.prove_ge0_sel(a - b - 1, facts) or self.prove_ge0_sel(b - a - 1, facts)
+            return all(self.prove_ge0_sel(g, facts) for g in self.cmp_ge(c_))
+        try:
+            if holds(c):
+                return True
+            if holds(c.neg()):
+                return False
+        except (fm.NonLinear, Unsupported):
+            pass
+        return None
+
     def prove_eq(self, a, b, ge_facts=()):
         d = sp.expand(a - b)
         if d == 0:
@@ -321,7 +368,7 @@ class Aff:
         uchain = self.chain(ul)
         l = dl
         while l is not None and l not in uchain:
-            if d.block is not l.header and not self.invariant_in(e, l):
+            if d.block is not l.header and not self.invariant_in(e, l) and not (l.bottom and self.fn.dominates(d.block, l.test_block)):
                 raise Unsupported('%%%s leaves loop %s but is not defined in its header' % (v.v, l.header.name))
             self.solve(l)
             e = self.at_exit(e, l)
@@ -338,7 +385,7 @@ class Aff:
         if l.counter in e.free_symbols:
             if l.T is None:
                 raise Unsupported('trip count of %s unknown' % l.header.name)
-            e = e.subs(l.counter, l.T)
+            e = e.subs(l.counter, l.T - 1 if l.bottom else l.T)
         return sp.expand(e) if e.is_polynomial() else e
 
     def expr_of(self, d):
@@ -633,7 +680,7 @@ class Aff:
                     late[r] = (o, src)
             pend1 = settle(step)
             try:
-                c = self.cond_of(l.header.term.ops[0], l.header)
+                c = self.cond_of(l.test_block.term.ops[0], l.test_block)
                 l.stay = c if l.stay_true else c.neg()
             except Defer:
                 l.stay = None
@@ -650,7 +697,7 @@ class Aff:
                 step2[r] = self.ev(o, src) - l.P[r]
             pending = settle(step2)
             if l.stay is None:
-                c = self.cond_of(l.header.term.ops[0], l.header)
+                c = self.cond_of(l.test_block.term.ops[0], l.test_block)
                 l.stay = c if l.stay_true else c.neg()
         finally:
             self.no_inner.pop()
@@ -693,7 +740,7 @@ class Aff:
             return None
         s = -g.coeff(i, 1)
         g0 = g.coeff(i, 0)
-        facts = self.facts_for(l.parent)
+        facts = self.facts_for(l.parent) + self.guard_facts(l)
         if not (s.is_positive or self.prove_ge0(s - 1, facts)):
             return None
         if p == 'ne' and s != 1:
@@ -716,11 +763,60 @@ class Aff:
                     else:
                         return None
         q = sp.expand(q)
+        # a loop tested at the bottom runs its body once more than its test succeeds
+        one = 1 if l.bottom else 0
         if self.prove_ge0(q, facts):
-            return q
+            return sp.expand(q + one)
         if self.prove_ge0(-q, facts):
-            return sp.Integer(0)
-        return sp.Max(0, q)
+            return sp.Integer(one)
+        return sp.Max(0, q) + one
+
+    def nonneg(self, e):
+        e = sp.sympify(e)
+        if e.is_number:
+            return bool(e >= 0)
+        if e.is_Symbol:
+            return bool(e.is_nonnegative)
+        if e.func == sel:
+            return self.nonneg(e.args[3]) and self.nonneg(e.args[4])
+        if e.is_Add or e.is_Mul:
+            return all(self.nonneg(a) for a in e.args)
+        return False
+
+    def guard_facts(self, l):
+        """expressions >= 0 from the branch conditions that dominate the entry of loop l (`if (n) do ... while (--n)`)"""
+        fn = self.fn
+        out = []
+        idom = fn.idom()
+        ok_loops = self.chain(l.parent)
+        d = idom.get(l.header)
+        while d is not None:
+            il = self.inner[d.name]
+            t = d.term
+            if (il is None or il in ok_loops) and t.op == 'br' and t.ops and len(t.x['labels']) == 2 and not (il is not None and d is il.test_block):
+                s1, s2 = [fn.bmap[x] for x in t.x['labels']]
+                r1 = s1 is l.header or fn.reachable(s1, l.header, avoid=(d,))
+                r2 = s2 is l.header or fn.reachable(s2, l.header, avoid=(d,))
+                if r1 != r2:
+                    try:
+                        c = self.cond_of(t.ops[0], d)
+                        if not r1:
+                            c = c.neg()
+                        if not c.fp:
+                            out.extend(self.cmp_ge(c))
+                            if c.pred == 'ne':
+                                a, b = sp.expand(self.early_sub(sp.sympify(c.a))), sp.expand(self.early_sub(sp.sympify(c.b)))
+                                if b == 0 and self.nonneg(a):
+                                    out.append(a - 1)
+                                elif a == 0 and self.nonneg(b):
+                                    out.append(b - 1)
+                    except (Unsupported, Defer):
+                        pass
+            nd = idom.get(d)
+            if nd is d:
+                break
+            d = nd
+        return out
 
     # ------------------------------------------------------------------ structure
     def is_pure_call(self, ins):
@@ -792,13 +888,17 @@ class Aff:
             if t.op != 'br':
                 raise Unsupported('terminator %s' % t.op)
             succs = [fn.bmap[x] for x in t.x['labels']]
+            if b.name in self.forced:
+                succs = [fn.bmap[self.forced[b.name]]]
             if len(succs) == 1:
                 nxt = succs[0]
                 if loop is not None and nxt is loop.header:
                     return items
                 came, b = b, nxt
                 continue
-            if loop is not None and b is loop.header:
+            if loop is not None and loop.bottom and b is loop.test_block:
+                return items
+            if loop is not None and b is loop.header and not loop.bottom:
                 came, b = b, loop.body_entry
                 continue
             s1, s2 = succs
@@ -938,7 +1038,7 @@ class Aff:
                 c = self.cond_of(it.ins.ops[0], it.block)
                 if it.negate:
                     c = c.neg()
-                out.append(('if', c.subs(R), self.emit(it.then, loop), self.emit(it.else_, loop), self.fn.loc(it.ins)))
+                out.append(('if', c.subs(R), self.emit(it.then, loop), self.emit(it.else_, loop), self.fn.loc(it.ins), (it.block.name, it.negate)))
             elif it.kind == 'Ret':
                 v = self.ret_value(it)
                 out.append(('ret', R(v) if v is not None else None, self.fn.loc(it.ins)))
@@ -952,6 +1052,47 @@ class Aff:
             if T is not None:
                 out.append(T - 1 - c)
         return out
+
+
+def decided_branches(a, tree, ctx=(), out=None):
+    """{block: successor}: two-way branches (not loop tests) whose condition is decided by the assumptions on the parameters
+    and the ranges of the enclosing loops, e.g. the guard of `if (n) do ... while (--n)` with n >= 1"""
+    out = {} if out is None else out
+    for t in tree:
+        if t[0] == 'loop':
+            decided_branches(a, t[3], ctx + ((t[1], t[2]),), out)
+        elif t[0] == 'if':
+            v = a.decide(t[1], a.domain_facts(ctx)) if len(t) > 5 else None
+            if v is None:
+                decided_branches(a, t[2], ctx, out)
+                decided_branches(a, t[3], ctx, out)
+            else:
+                bname, neg = t[5]
+                blk = a.fn.bmap[bname]
+                s1, s2 = blk.term.x['labels']
+                # the emitted condition is the branch condition, negated when the then-arm hangs on the false edge
+                holds = v != neg
+                out[bname] = s1 if holds else s2
+        elif t[0] == 'exitif':
+            decided_branches(a, t[2], ctx, out)
+    return out
+
+
+def emit_pruned(mk):
+    """mk() -> Aff.  Statement tree in which decided branches are replaced by the arm taken (the structure is rebuilt, so
+    that memory-state tags are those of the simplified program)"""
+    a = mk()
+    tree = a.emit()
+    for _ in range(3):
+        forced = decided_branches(a, tree)
+        if not forced or all(a.forced.get(k) == v for k, v in forced.items()):
+            break
+        f2 = dict(a.forced)
+        f2.update(forced)
+        a = mk()
+        a.forced = f2
+        tree = a.emit()
+    return a, tree
 
 
 def show(tree, ind=0):
